@@ -640,6 +640,180 @@ def stage_thresholds(ctx, n, known):
             ctx.count("working_streams_ok")
 
 
+# ---------------------------------------------------------------- the planner's rate decomposition: model vs real _soxr_init
+
+PLANNER_THRESH = [1.0, 1.5, 2.0, 3.0, 4.0, 5.0, 8.0, 16.0, 0.5, 0.25, 0.2, 0.125, 1 / 3.0, 2 / 3.0, 0.75, 1 / 16.0, 1 / 64.0, 1 / 80.0, 1 / 5.0]
+
+
+def gen_planner_cfg(rng):
+    """(probe-style cfg, class): ratios on every path of the stage-determination loop"""
+    c = rng.below(16)
+    if c < 2:
+        ir, orr, k = float(rng.choice(cr.AUDIO)), float(rng.choice(cr.AUDIO)), "audio"
+    elif c < 4:
+        ir, orr, k = float(1 + rng.below(24)), float(1 + rng.below(24)), "small-int"
+    elif c < 6:      # coprime pairs up to 4500 (denominators around and beyond maxL)
+        a, b = 1 + rng.below(4500), 1 + rng.below(4500)
+        ir, orr, k = float(a), float(b), "coprime-4500"
+    elif c == 6:
+        e = rng.below(47) - 16
+        ir, orr, k = 2.0 ** e, 1.0, "pow2"
+        if rng.chance(.5):
+            ir = cl.nextafter(ir, rng.chance(.5))
+    elif c < 9:      # the loop's thresholds (times powers of two), at and around
+        t = rng.choice(PLANNER_THRESH) * 2.0 ** rng.choice([0, 0, 0, 1, 2, 3, 5, 10, -1, -2])
+        ir, orr, k = cl.around(rng, t), 1.0, "threshold"
+    elif c < 11:     # irrational
+        ir, orr, k = rng.uniform(.05, 40), rng.choice([1.0, 3.14159, 2.71828]), "irrational"
+    elif c == 11:    # near-rational: p/q (1 +- 2^-k), around the snap's epsilon
+        a, b = 1 + rng.below(40), 1 + rng.below(40)
+        ir, orr, k = (a / b) * (1 + rng.choice([1, -1]) * 2.0 ** -rng.choice([20, 28, 31, 32, 33, 34, 36, 40, 45, 52])), 1.0, "near-rational"
+    elif c == 12:    # log-uniform 2^-16 .. 2^31
+        ir, orr, k = 2.0 ** rng.uniform(-16, 31), 1.0, "log-uniform"
+    elif c == 13:    # integer and half-integer up-sampling factors (the d > 4 && d != 5 branch)
+        f = rng.choice([4, 5, 6, 7, 8, 9, 10, 12, 16, 20, 32, 100, 128, 147, 256, 320, 1000, 4.5, 5.5, 4.000001, 5.000001, 4.999999])
+        ir, orr, k = 1.0, float(f), "up-integer"
+    elif c == 14:
+        a, b = cr.gen_rates(rng)[:2]
+        ir, orr, k = float(a), float(b), "planner-paths"
+    else:
+        ir, orr, k = float(1 + rng.below(400)), float(1 + rng.below(400)), "coprime-400"
+    cfg = {"ir": cl.d2b(ir), "or": cl.d2b(orr), "ch": 1}
+    cfg["recipe"] = rng.choice([0, 1, 1, 2, 2, 3, 4, 4, 5, 6, 6, 7, 8, 9, 10]) | (rng.choice([0x10, 0x30, 0x40]) if rng.chance(.2) else 0)
+    cfg["rflags"] = rng.choice([0, 0, 0, 1, 2, 8, 8, 16, 16 | 8, 4])
+    if rng.chance(.12):
+        cfg["prec"] = cl.d2b(rng.choice([15.0, 16.0, 17.0, 18.5, 20.0, 21.0, 22.0, 24.0, 26.0, 28.0, 30.0, 33.0]))
+    if rng.chance(.5):
+        cfg["rtflags"] = rng.choice([0, 1, 2, 3, 8, 9, 10, 11])
+        cfg["kb"] = rng.choice([100, 400, 800, 100 + rng.below(701)])
+        cfg["min"], cfg["large"] = 10, 17
+    if rng.chance(.3):
+        cfg["itype"], cfg["otype"] = rng.below(4), rng.below(4)
+    if rng.chance(.3):
+        cfg["E.SOXR_USE_SIMD"] = cl.hexs(rng.choice(["0", "1"]))
+    return cfg, k
+
+
+FULL_SCALE = [1.0, 1.0, 65536.0 * 32768, 32768.0]
+
+
+def real_stage_line(plan):
+    """canonical list of the stages of an exported plan, in the form the model prints (`stageLine`)"""
+    out = []
+    for st in plan:
+        kind = st["kind"]
+        if kind == "half":
+            out.append("half")
+        elif kind == "dft":
+            m = int(st["M"])            # F-domain decimation stores -M/2 in step.integer
+            out.append("dft:%s/%s" % (st["L"], -2 * m if m < 0 else m))
+        elif kind == "poly0":
+            out.append("exact:%s:%s" % (st["L"], st["step"]))
+        elif kind == "cubic":
+            out.append("cubic:%s" % st["step"])
+        else:
+            out.append("interp:%s:%s" % (st["den"], st["step"]))
+    return " ".join(out)
+
+
+def stage_planner(ctx, n):
+    """The stage planner's rate decomposition: the exported plan of the REAL _soxr_init (stage kinds, L, M, clock steps) against the
+    Lean model `planRates` + `finishArb` for generated configurations; the oracle parameters of `finishArb` (which kernel, odd number
+    of taps) are read off the exported plan."""
+    exe = common.build_harness("crtrace", ["cr/trace.c"], "rel")
+    rng = ctx.rng
+    jobs = []
+    for _ in range(n):
+        cfg, k = gen_planner_cfg(rng)
+        jobs.append({"cfg": cfg, "cls": k})
+    # 1. the model's verdict and stored specs (for the trace harness's create line)
+    p = subprocess_run([cl.DRIVER], [cl.create_line(j["cfg"]) for j in jobs])
+    for j, l in zip(jobs, p):
+        j["acc"] = cl.kv(l) if l.startswith("C ok") else None
+    live = [j for j in jobs if j["acc"] and j["acc"]["ready"] == "1" and j["acc"]["engine"] != "vr32"]
+    # 2. the real plans
+    def work(batch):
+        lines, envs = [], None
+        for j in batch:
+            tcfg, env = cl.trace_cfg(j["cfg"], j["acc"])
+            j["tcfg"], j["env"] = tcfg, env
+        # one process per (batch, env): SIMD choice comes from the environment
+        for j in batch:
+            tr = cr.run_trace(exe, [cr.create_line(j["tcfg"])], j["env"], timeout=60)
+            j["tr"] = tr
+    batches = [live[i:i + 8] for i in range(0, len(live), 8)]
+    cr.pmap(work, batches)
+    # 3. the model's plans with the oracle parameters observed
+    ask = []
+    for j in live:
+        tr = j["tr"]
+        if tr.rc != 0 or not tr.created:
+            continue
+        arb = [s_ for s_ in tr.plan if s_["kind"].startswith("poly")]
+        interp = int(arb[0]["kind"][4:]) if arb else 0
+        odd = 1 if arb and float(arb[0].get("phase0", 0)) != 0 else 0
+        io = j["cfg"]
+        it, ot = (int(io.get("itype", 0)) & 3, int(io.get("otype", 0)) & 3) if int(io.get("io", 1)) else (0, 0)
+        gain = 1 if FULL_SCALE[ot] / FULL_SCALE[it] != 1 else 0
+        j["ask"] = "planner " + " ".join("%s=%s" % kv for kv in j["cfg"].items()) + " cpu32=1 cpu64=1 gain=%d interp=%d odd=%d" % (gain, interp, odd)
+        ask.append(j)
+    ans = subprocess_run([cl.DRIVER], [j["ask"] for j in ask])
+    shapes = set()
+    for j, a in zip(ask, ans):
+        ctx.count("evaluations")
+        ctx.count("planner_plans_compared")
+        ctx.hist("dist_planner_class", j["cls"])
+        real = real_stage_line(j["tr"].plan)
+        model = a[3:].split("|")[0].strip() if a.startswith("PL ") else a
+        k = cl.kv(a)
+        shapes.add((" ".join(x.split(":")[0] for x in real.split()), k.get("rational"), k.get("mode")))
+        ctx.hist("dist_planner_rational", k.get("rational", "?"))
+        ctx.hist("dist_planner_product", "exact" if k.get("prodexact") == "1" else "within 2^-32" if k.get("prod32") == "1" else "off")
+        rep = {"stage": "planner", "ops": [cl.create_line(j["cfg"])], "trace_create": cr.create_line(j["tcfg"]), "env": j["env"], "real": real, "model": a}
+        # the one oracle parameter that could hide a planner change: the fall-back from the exact coefficient table the model's
+        # rational plan asks for to an interpolated kernel is legitimate only if that table would exceed coef_size_kbytes
+        fb = None
+        arbs = [s_ for s_ in j["tr"].plan if s_["kind"].startswith("poly")]
+        if k.get("rational") == "1" and arbs and arbs[0]["kind"] != "poly0" and int(k.get("arbL", 1)) > 1:
+            rtf = int(j["tcfg"].get("rtflags", 0)) & 3
+            nobs = int(arbs[0].get("n", 0))
+            size = 8 if j["tr"].engine in ("cr64", "cr64s") else 4
+            need = int(k["arbL"]) * 2 * (1.5 * nobs + 8) * size / 1000.0       # generous upper bound of the exact table's size in kbytes
+            if rtf == 1:
+                fb = "SOXR_COEF_INTERP=1 (exact table demanded) but the real plan interpolates"
+            elif rtf == 0 and need <= int(j["tcfg"].get("kb", 400)):
+                fb = "an exact table of at most %.0f kbytes fits coef_size_kbytes=%s, yet the real plan fell back to an interpolated kernel" % (need, j["tcfg"].get("kb", 400))
+            ctx.count("planner_table_fallbacks")
+        if fb:
+            violation(ctx, "planner", "planner model vs real _soxr_init: the model finds the rational %s/%s within maxL; %s (%s %s; real stages `%s`)" % (
+                k.get("arbM"), k.get("arbL"), fb, cr.create_line(j["tcfg"]), j["env"], real), rep, no_input=True)
+        elif real != model:
+            violation(ctx, "planner", "correspondence broken (planner model vs real _soxr_init): stages of the real plan `%s`, of the model `%s` (%s %s)" % (
+                real, a[:300], cr.create_line(j["tcfg"]), j["env"]), rep, no_input=True)
+        elif k.get("finished") != "1" or k.get("faithful") != "1":
+            violation(ctx, "planner", "planner model: %s (%s): %s" % ("the loop did not end within 4 passes" if k.get("finished") != "1" else
+                      "an exact dyadic operation of the model differs from the rounded IEEE operation", cr.create_line(j["tcfg"]), a[:300]), rep, no_input=True)
+        elif k.get("prod32") != "1":
+            violation(ctx, "planner-product", "planner: the product of the stage rates of the plan differs from io_ratio by more than 2^-32 * max(1, io_ratio) (%s): %s" % (
+                cr.create_line(j["tcfg"]), a[:400]), rep)
+        elif len(ctx.cov.get("planner_samples", [])) < 4:
+            ctx.cov.setdefault("planner_samples", []).append({"create": cr.create_line(j["tcfg"]), "stages": real, "model": a[:200]})
+    for j in live:
+        tr = j["tr"]
+        if tr.rc != 0 or not tr.created:
+            ctx.count("planner_real_create_failed")
+    ctx.cov["distinct_nontrivial"] = ctx.cov.get("distinct_nontrivial", 0) + len(shapes)
+
+
+def subprocess_run(argv, lines):
+    import subprocess
+    p = subprocess.run(argv, input="\n".join(lines) + "\n", stdout=subprocess.PIPE, stderr=subprocess.PIPE, universal_newlines=True, timeout=1800)
+    out = p.stdout.splitlines()
+    if len(out) != len(lines):
+        raise RuntimeError("driver answered %d lines for %d ops: %s" % (len(out), len(lines), p.stderr[-400:]))
+    return out
+
+
 PINNED = [
     # (finding id, probe ops, which harness variant, expectation)
     ("F5", ["create ir=%d or=%d ch=1 recipe=1 large=8 E.SOXR_USE_SIMD=%s" % (cl.d2b(1.0), cl.d2b(8192.0), cl.hexs("1"))], "dead"),
@@ -733,6 +907,7 @@ def run(ctx):
     stage_api(ctx, exe, 1500 if ctx.quick else 60000, known)
     stage_working(ctx, units, 220 if ctx.quick else 5000, known)
     stage_thresholds(ctx, 400 if ctx.quick else 6000, known)
+    stage_planner(ctx, 1500 if ctx.quick else 40000)
     stage_pinned(ctx, exe, known)
     ctx.cov["rule"] = ("generated soxr_create calls over the product space (rates: audio / small integers / 1e-300..1e300 decades / the 2^31 factor bound / "
                        "big up-sampling / zeros, signs, non-finite, overflowing quotients; channels 0..300; recipes 0..15 x phase bits x steep x flag words; "
